@@ -61,6 +61,7 @@ def main():
     Ns = (4, 8) if tier == "quick" else (2, 4, 8, 20, 64)
     pv = (0.05, 0.4) if tier == "quick" else (0.02, 0.05, 0.4, 1.5)
     h = 1e-7
+    hm = 1e-5
     G = 2
     for L, N, nnf, kinds, pl, pu in itertools.product(Ls, Ns, (1, 4), ("wall.X", "X.wall", "X.X", "wall.wall"), pv, pv):
         N_norm = N * nnf
@@ -97,8 +98,9 @@ def main():
                     got_hi = (L - float(f((iN_end - h) * N_norm))) / (2 * a_hi * np.sqrt(h) + b_hi * h)
                     tol = 3000
                 elif method == "monotonic":
-                    got_lo = float(f(h * N_norm)) / h / pl
-                    got_hi = (L - float(f((iN_end - h) * N_norm))) / h / pu
+                    # second-order one-sided differences (the cubic / logarithmic forms can have a large second derivative)
+                    got_lo = (4.0 * float(f(hm * N_norm)) - float(f(2 * hm * N_norm))) / (2 * hm) / pl
+                    got_hi = (4.0 * (L - float(f((iN_end - hm) * N_norm))) - (L - float(f((iN_end - 2 * hm) * N_norm)))) / (2 * hm) / pu
                     tol = 1000
                 else:
                     got_lo = got_hi = 1.0
